@@ -302,5 +302,25 @@ ASSUME K!DistFailures(Z32, One32, <<<<16000, 0>>, <<16256, 0>>>>, <<<<16000, 0>>
        /\ K!DistFailures(Z32, One32, <<<<16000, 0>>, <<16256, 0>>>>, <<<<16000, 0>>, <<16256, 1>>>>) = {"reproducible"}
        /\ K!DistFailures(Z32, One32, <<<<16000, 0>>, <<16384, 0>>>>, <<<<16000, 0>>, <<16384, 0>>>>) = {"range"}
        /\ K!DistFailures(One32, Z32, <<<<16384, 0>>>>, <<<<16384, 0>>>>) = {}                                        \* lower > upper: not stated
+\* --- distribution objects without abstract state: the value of a draw from the generator's raw output ---
+\* [0, 1], pcg32 output 2^31: 0.5 accepted, 0.25 and 0.5 + 2^-18 rejected; an object that kept the scale of a pcg32 (2^-32) and is handed an
+\* mt19937_64 output 2^63 returns 2^31, one that kept the scale of an mt19937_64 (2^-64) and is handed a pcg32 output 2^31 returns 2^-33: both rejected;
+\* minstd_rand: least output 1 maps to lower; a range of one denormal step: the quotient underflows, lower itself is accepted (underflow part of the bound)
+ASSUME K!DrawValueOkV(K!SDZero, K!SDOne, K!Zero, K!GenSpanL("pcg32"), K!Pow2L(31), K!SDPow2(-1), 20, K!Tiny)
+       /\ ~K!DrawValueOkV(K!SDZero, K!SDOne, K!Zero, K!GenSpanL("pcg32"), K!Pow2L(31), K!SDPow2(-2), 20, K!Tiny)
+       /\ ~K!DrawValueOkV(K!SDZero, K!SDOne, K!Zero, K!GenSpanL("pcg32"), K!Pow2L(31), K!SDAdd(K!SDPow2(-1), K!SDPow2(-18)), 20, K!Tiny)
+       /\ ~K!DrawValueOkV(K!SDZero, K!SDOne, K!Zero, K!GenSpanL("mt19937_64"), K!Pow2L(63), K!SDPow2(31), 20, K!Tiny)
+       /\ K!DrawValueOkV(K!SDZero, K!SDOne, K!Zero, K!GenSpanL("mt19937_64"), K!Pow2L(63), K!SDPow2(-1), 20, K!Tiny)
+       /\ ~K!DrawValueOkV(K!SDZero, K!SDOne, K!Zero, K!GenSpanL("pcg32"), K!Pow2L(31), K!SDPow2(-33), 20, K!Tiny)
+       /\ K!DrawValueOkV(K!SDInt(3), K!SDInt(5), K!One, K!GenSpanL("minstd_rand"), K!One, K!SDInt(3), 20, K!Tiny)
+       /\ ~K!DrawValueOkV(K!SDInt(3), K!SDInt(5), K!One, K!GenSpanL("minstd_rand"), K!One, K!SDInt(4), 20, K!Tiny)
+       /\ K!DrawValueOkV(K!SDZero, K!Tiny, K!Zero, K!GenSpanL("mt19937_64"), K!Pow2L(63), K!SDZero, 20, K!Tiny)
+       /\ K!DrawStatedV(K!SDZero, K!SDOne, K!One, K!GenSpanL("minstd_rand"), K!One, 20, K!Top32)
+       /\ ~K!DrawStatedV(K!SDZero, K!SDOne, K!One, K!GenSpanL("minstd_rand"), K!Zero, 20, K!Top32)                  \* an output below min(): not stated
+       /\ ~K!DrawStatedV(K!SDZero, K!Val(F(32639, 65535)), K!Zero, K!GenSpanL("pcg32"), K!One, 20, K!Top32)          \* [0, FLT_MAX]: an intermediate value may overflow
+       /\ ~K!DrawStatedV(K!SDOne, K!SDZero, K!Zero, K!GenSpanL("pcg32"), K!One, 20, K!Top32)                         \* lower > upper
+       /\ K!InRangeStepV(K!SDAdd(K!SDInt(20), K!SDPow2(-48)), K!SDInt(10), K!SDInt(20), 52, K!D64Tiny) /\ ~K!InRangeStepV(K!SDAdd(K!SDInt(20), K!SDPow2(-46)), K!SDInt(10), K!SDInt(20), 52, K!D64Tiny)
+       /\ K!InRangeStepV(K!SDScale(K!SDInt(3), -1074), K!SDZero, K!SDScale(K!SDInt(2), -1074), 52, K!D64Tiny) /\ ~K!InRangeStepV(K!SDScale(K!SDInt(4), -1074), K!SDZero, K!SDScale(K!SDInt(2), -1074), 52, K!D64Tiny)
+       /\ K!QuotientDenormalV(K!SDZero, K!SDPow2(-117), K!GenSpanL("pcg32"), K!SDPow2(-126)) /\ ~K!QuotientDenormalV(K!SDZero, K!SDPow2(-94), K!GenSpanL("pcg32"), K!SDPow2(-126))
 ASSUME PrintT(<<"C07-constant-laws-checked", Cardinality(Small \cup Mid), Cardinality(Big), Cardinality(Fin)>>)
 ===============================================================================
